@@ -74,6 +74,18 @@ CHECKS = {
                 text="Every order of evaluations (loss x batch variant x eager/jit/value-and-grad) and draws (fresh and re-used generator states, eager/jit) up to length 3-4 is enumerated; the sequences are executed "
                      "on real losses (single and system) and generators; fingerprints of every argument before/after each call and of every result must satisfy ArgsUnchanged, repeatability and mode invariance.",
                 note="bitwise cross-mode comparison only on exact-arithmetic problems (x64); generator-only sequences run in the default 32-bit mode; fingerprints hash structure, array bytes and user dictionaries", ref="3.5 C20"),
+    "C02": dict(cat="model_checking", tech="TLC enumeration of equation x parameter-role x key-layout structures (MC_Equations.tla) + exact conformance of DynamicLoss.evaluate against Equations.tla (Trace_Func.tla)",
+                text="For each built-in equation, every parameter in turn (and all together), Tmax 1/2/4 and every network/parameter key layout is instantiated with integer polynomial candidates; the residual "
+                     "returned by the real DynamicLoss.evaluate must equal the documented differential expression evaluated by the specification (exact rationals).",
+                note="polynomial candidates (GLV: c(1+t)^m at dyadic points); GLV oracle = log form (docstring signs are a documentation remark)", ref="3.6 C02"),
+    "C10": dict(cat="model_checking", tech="TLC enumeration of wrapper structures (MC_Net.tla) + exact conformance of create_PINN/create_SPINN/create_HYPERPINN networks against Net.tla (Trace_Func.tla)",
+                text="Wrapper x equation type x outputs x non-commuting input/output transforms x shared-output slices x full/bare parameters x scalar/length-one time x depth x activation; every SPINN grid slot "
+                     "against sum_r prod_d f_d; HYPERPINN weights split by cumulative leaf sizes, row-major; networks built by the real factories with integer weights.",
+                note="integer weights, activations identity/square; non-stationary wrappers with length-one time only", ref="3.6 C10"),
+    "C11": dict(cat="model_checking", tech="TLC enumeration of operator/equation x dimension x batch structures (MC_FwdRev.tla) + exact conformance of forward-grid and reverse-pointwise implementations against SpinnPoly.tla/Operators.tla/Equations.tla",
+                text="A polynomial SPINN (real create_SPINN) and its expanded polynomial PINN twin are evaluated by the forward-mode grid and reverse-mode pointwise implementations of the operators and built-in "
+                     "equations; both must equal the value the specification computes from the expansion at every grid index, including batches smaller than the dimension.",
+                note="polynomial feature maps (exact under x64); grid axes time first", ref="3.6 C11"),
 }
 NA = {}
 
